@@ -144,14 +144,19 @@ structure Frame where
   len : Nat := 0
   dot : Option (Nat × Span) := none
   comment : Nat := 0
+  /-- `some (args, improper)` when the most recently pushed expression is an `ExprKind::List`
+      (what `List::make_improper` splices into a dotted list) -/
+  lastList : Option (List Datum × Bool) := none
 
 def Frame.exprs (f : Frame) : List Datum :=
   match f.first with
   | none => []
   | some d => d :: f.restRev.reverse
 
-/-- `Frame::push`; `isByte` = the expression is an atom with `byte().is_some()` -/
-def Frame.push (f : Frame) (d : Datum) (sp : Span) (isByte : Bool) : Except ReadErr Frame :=
+/-- `Frame::push`; `isByte` = the expression is an atom with `byte().is_some()`;
+    `info` = `some (args, improper)` when the expression is an `ExprKind::List` -/
+def Frame.push (f : Frame) (d : Datum) (sp : Span) (isByte : Bool)
+    (info : Option (List Datum × Bool) := none) : Except ReadErr Frame :=
   let dotBad := match f.dot with
     | some (idx, _) => idx != f.len
     | none => false
@@ -159,8 +164,8 @@ def Frame.push (f : Frame) (d : Datum) (sp : Span) (isByte : Bool) : Except Read
   else if f.pmod == some .bytes && !isByte then .error ⟨.syntax .bytesRange, sp.1, sp.2⟩
   else if f.comment > 0 then .ok { f with comment := f.comment - 1 }
   else match f.first with
-    | none => .ok { f with first := some d, len := 1 }
-    | some _ => .ok { f with restRev := d :: f.restRev, len := f.len + 1 }
+    | none => .ok { f with first := some d, len := 1, lastList := info }
+    | some _ => .ok { f with restRev := d :: f.restRev, len := f.len + 1, lastList := info }
 
 def mkPairs : List Datum → Datum → Datum
   | [], t => t
@@ -179,28 +184,45 @@ def bytesOf (xs : List Datum) : List Nat :=
     | .int i => some i.toNat
     | _ => none)
 
+/-- a parsed expression: its value, its span, and - when it is an `ExprKind::List` - the list's
+    elements and `improper` flag (needed by `List::make_improper`, which splices a list that
+    follows the dot: `(a . (b c))` is `(a b c)`, `(a . (b . c))` is `(a b . c)`) -/
+structure PVal where
+  d : Datum
+  sp : Span
+  info : Option (List Datum × Bool) := none
+
+def listVal (args : List Datum) (improper : Bool) (sp : Span) : PVal :=
+  { d := if improper then improperDatum args else .list args, sp, info := some (args, improper) }
+
 /-- `Frame::build_expr` (flat mode) followed by the conversion of the result -/
-def Frame.build (f : Frame) (close : Span) : Except ReadErr (Datum × Span) :=
+def Frame.build (f : Frame) (close : Span) : Except ReadErr PVal :=
   if f.comment > 0 then .error ⟨.syntax .badDatumComment, f.openS.1, f.openS.2⟩
   else
     let sp : Span := (f.openS.1, close.2)
     match f.pmod with
-    | some .bytes => .ok (.bytes (bytesOf f.exprs), sp)
-    | some .vector => .ok (.vec f.exprs, sp)
+    | some .bytes => .ok { d := .bytes (bytesOf f.exprs), sp }
+    | some .vector => .ok { d := .vec f.exprs, sp }
     | none =>
       match f.dot with
-      | none => .ok (.list f.exprs, sp)
+      | none => .ok (listVal f.exprs false sp)
       | some (idx, dsp) =>
-        if idx + 1 == f.len then .ok (improperDatum f.exprs, sp)
+        if idx + 1 == f.len then
+          -- `List::make_improper`
+          match f.lastList with
+          | some (largs, limp) => .ok (listVal (f.exprs.dropLast ++ largs) limp sp)
+          | none => .ok (listVal f.exprs true sp)
         else .error ⟨.syntax .dotCdr, dsp.1, dsp.2⟩
 
 /-- result of reading one expression: `none` = end of input -/
 structure PRes where
-  val : Option (Except ReadErr (Datum × Span))
+  val : Option (Except ReadErr PVal)
   st : PSt
   rest : List LexItem
 
-def quoteForm (name : Text) (d : Datum) : Datum := .list [.sym name, d]
+/-- `(name d)` built by a reader shorthand with `List::new` (a list expression, no location) -/
+def quoteList (name : Text) (d : Datum) : PVal :=
+  listVal [.sym name, d] false (0, 0)
 
 /-- the bookkeeping done when the first element of a frame is pushed as an atom -/
 def headAtom (st : PSt) (stackLen : Nat) (t : Tok) : PSt :=
@@ -240,6 +262,7 @@ def ctxAfterChild (st : PSt) (stackLen : Nat) : PSt :=
 /-- the context pop done when the outermost list closes -/
 def ctxAfterTop (st : PSt) : PSt :=
   match st.ctx with
+  | .quoteTick _ :: _ | .quasiTick _ :: _ => st
   | .quote _ :: r => { st with ctx := r }
   | _ => st
 
@@ -254,7 +277,20 @@ def isTickCtx (kind : Nat) : Ctx → Bool
 def PSt.enterNext (st : PSt) : PSt :=
   if st.quoteStackEmpty && st.shorthand == 0 && st.ctx.isEmpty then { st with depth := 0 } else st
 
-def eofErr (sp : Span) : Except ReadErr (Datum × Span) := .error ⟨.eof, sp.1, sp.2⟩
+def eofErr (sp : Span) : Except ReadErr PVal := .error ⟨.eof, sp.1, sp.2⟩
+
+/-- `self.next().unwrap_or(Err(EOF(sp))).map(wrap)` -/
+def wrapNext (r : Option (Except ReadErr PVal)) (sp : Span) (wrap : Datum → PVal) : Except ReadErr PVal :=
+  match r with
+  | none => eofErr sp
+  | some (.error e) => .error e
+  | some (.ok v) => .ok (wrap v.d)
+
+/-- pop the context pushed by a shorthand handler; `false` = `debug_assert!(matches!(..))` fails -/
+def popTick (kind : Nat) (ctx : List Ctx) : Bool × List Ctx :=
+  match ctx with
+  | [] => (true, [])
+  | c :: cs => (isTickCtx kind c, cs)
 
 mutual
 
@@ -264,8 +300,8 @@ def pNext : Nat → PSt → List LexItem → PRes
   | f + 1, st, toks => pTop f st.enterNext [] toks
 
 /-- the shorthand forms `'x` `` `x`` `,x` `,@x` `#'x` ...: read the next expression and wrap it.
-    `kind`: 0 quote, 1 unquote, 2 quasiquote, 3 unquote-splicing, 4.. the `#'` family.
-    Returns the wrapped value, or the error. -/
+    `kind`: 0 quote, 1 unquote, 2 quasiquote, 3 unquote-splicing, 4.. the `#'` family;
+    `top` = at top level (otherwise inside a list whose frame stack has length `stackLen`). -/
 def pShort : Nat → PSt → (kind : Nat) → (stackLen : Nat) → (top : Bool) → Span → List LexItem → PRes
   | 0, st, _, _, _, _, toks => ⟨some (.error ⟨.outOfFuel, 0, 0⟩), st, toks⟩
   | f + 1, st, kind, stackLen, top, sp, toks =>
@@ -273,67 +309,39 @@ def pShort : Nat → PSt → (kind : Nat) → (stackLen : Nat) → (top : Bool) 
       let name := if kind == 4 then t!"syntax" else if kind == 5 then t!"quasisyntax"
         else if kind == 6 then t!"#%unsyntax" else t!"#%unsyntax-splicing"
       let r := pNext f st toks
-      let v := match r.val with
-        | none => eofErr sp
-        | some (.error e) => .error e
-        | some (.ok (d, _)) => .ok (quoteForm name d, ((0, 0) : Span))
-      ⟨some v, r.st, r.rest⟩
+      ⟨some (wrapNext r.val sp (quoteList name)), r.st, r.rest⟩
     else if kind == 0 then
       let last := st.qctx
       let st1 : PSt := { st with shorthand := st.shorthand + 1,
                                  qctx := if st.depth == 0 then true else st.qctx,
                                  ctx := .quoteTick stackLen :: st.ctx }
       let r := pNext f st1 toks
-      let v := match r.val with
-        | none => eofErr sp
-        | some (.error e) => .error e
-        | some (.ok (d, _)) => .ok (quoteForm t!"quote" d, if top then ((0, 0) : Span) else sp)
-      let st2 := r.st
-      let (popped, ctx') := match st2.ctx with
-        | [] => (none, [])
-        | c :: cs => (some c, cs)
-      let st3 : PSt := { st2 with shorthand := st2.shorthand - 1, qctx := last, ctx := ctx' }
-      match popped with
-      | some c => if isTickCtx 0 c then ⟨some v, st3, r.rest⟩
-                  else ⟨some (.error ⟨.assertFailed, sp.1, sp.2⟩), st3, r.rest⟩
-      | none => ⟨some v, st3, r.rest⟩
+      -- top level: `construct_quote_vec` + `maybe_lower` = a list expression;
+      -- inside a list: `construct_quote` = `ExprKind::Quote` located at the tick (not a list expression)
+      let v := wrapNext r.val sp (fun d =>
+        if top then quoteList t!"quote" d else { d := .list [.sym t!"quote", d], sp })
+      let (ok, ctx') := popTick 0 r.st.ctx
+      let st3 : PSt := { r.st with shorthand := r.st.shorthand - 1, qctx := last, ctx := ctx' }
+      if ok then ⟨some v, st3, r.rest⟩ else ⟨some (.error ⟨.assertFailed, sp.1, sp.2⟩), st3, r.rest⟩
     else if kind == 2 then
       let st1 : PSt := ({ st with ctx := .quasiTick stackLen :: st.ctx }).incr
       let r := pNext f st1 toks
-      let v := match r.val with
-        | none => eofErr sp
-        | some (.error e) => .error e
-        | some (.ok (d, _)) => .ok (quoteForm symQuasi d, ((0, 0) : Span))
-      let st2 := r.st
-      let (popped, ctx') := match st2.ctx with
-        | [] => (none, [])
-        | c :: cs => (some c, cs)
-      let st3 : PSt := ({ st2 with ctx := ctx' }).decr
-      match popped with
-      | some c => if isTickCtx 2 c then ⟨some v, st3, r.rest⟩
-                  else ⟨some (.error ⟨.assertFailed, sp.1, sp.2⟩), st3, r.rest⟩
-      | none => ⟨some v, st3, r.rest⟩
+      let v := wrapNext r.val sp (quoteList symQuasi)
+      let (ok, ctx') := popTick 2 r.st.ctx
+      let st3 : PSt := ({ r.st with ctx := ctx' }).decr
+      if ok then ⟨some v, st3, r.rest⟩ else ⟨some (.error ⟨.assertFailed, sp.1, sp.2⟩), st3, r.rest⟩
     else
       -- unquote (1) / unquote-splicing (3).  Inside a list the depth is decremented before the
       -- context push, at top level after it: the order is not observable.
       let tickCtx := if kind == 1 then Ctx.unquoteTick stackLen else Ctx.splicingTick stackLen
       let st1 : PSt := ({ st with ctx := tickCtx :: st.ctx }).decr
       let r := pNext f st1 toks
-      let st2 := r.st
-      let name := if st2.raw then (if kind == 1 then symRawUnquote else symRawSplicing)
+      let name := if r.st.raw then (if kind == 1 then symRawUnquote else symRawSplicing)
                   else (if kind == 1 then symUnquote else symSplicing)
-      let v := match r.val with
-        | none => eofErr sp
-        | some (.error e) => .error e
-        | some (.ok (d, _)) => .ok (quoteForm name d, ((0, 0) : Span))
-      let (popped, ctx') := match st2.ctx with
-        | [] => (none, [])
-        | c :: cs => (some c, cs)
-      let st3 : PSt := ({ st2 with ctx := ctx' }).incr
-      match popped with
-      | some c => if isTickCtx kind c then ⟨some v, st3, r.rest⟩
-                  else ⟨some (.error ⟨.assertFailed, sp.1, sp.2⟩), st3, r.rest⟩
-      | none => ⟨some v, st3, r.rest⟩
+      let v := wrapNext r.val sp (quoteList name)
+      let (ok, ctx') := popTick kind r.st.ctx
+      let st3 : PSt := ({ r.st with ctx := ctx' }).incr
+      if ok then ⟨some v, st3, r.rest⟩ else ⟨some (.error ⟨.assertFailed, sp.1, sp.2⟩), st3, r.rest⟩
 
 /-- `get_next_and_maybe_wrap_in_doc`: `dcs` = spans of the pending top-level `#;` -/
 def pTop : Nat → PSt → List Span → List LexItem → PRes
@@ -371,7 +379,7 @@ def pTop : Nat → PSt → List Span → List LexItem → PRes
         finish (pList f { st with quoteStackEmpty := true } []
           { openS := sp, paren := p, pmod := m } sp toks)
       | .close p => ⟨some (.error ⟨.unexpectedClose p, s, e⟩), st, toks⟩
-      | t => finish ⟨some (.ok (atomToDatum t, sp)), st, toks⟩
+      | t => finish ⟨some (.ok { d := atomToDatum t, sp }), st, toks⟩
 
 /-- `read_from_tokens`: `stack` = enclosing frames (head = innermost), `cur` = current frame -/
 def pList : Nat → PSt → List Frame → Frame → Span → List LexItem → PRes
@@ -383,15 +391,13 @@ def pList : Nat → PSt → List Frame → Frame → Span → List LexItem → P
     | .tok t s e =>
       let sp : Span := (s, e)
       let fail (k : ReadErrKind) (at_ : Span) : PRes := ⟨some (.error ⟨k, at_.1, at_.2⟩), st, toks⟩
-      -- push a complete sub-expression into the current frame and go on
-      let pushGo (st' : PSt) (d : Datum) (dsp : Span) (isByte : Bool) (toks' : List LexItem) : PRes :=
-        match cur.push d dsp isByte with
-        | .error e => ⟨some (.error e), st', toks'⟩
-        | .ok cur' => pList f st' stack cur' sp toks'
       let short (kind : Nat) : PRes :=
         let r := pShort f st kind stack.length false sp toks
         match r.val with
-        | some (.ok (d, dsp)) => pushGo r.st d dsp false r.rest
+        | some (.ok v) =>
+          match cur.push v.d v.sp false v.info with
+          | .error e => ⟨some (.error e), r.st, r.rest⟩
+          | .ok cur' => pList f r.st stack cur' sp r.rest
         | _ => r
       match t with
       | .dot =>
@@ -425,19 +431,17 @@ def pList : Nat → PSt → List Frame → Frame → Span → List LexItem → P
             let st2 := ctxAfterChild st1 stack'.length
             match cur.build sp with
             | .error e => ⟨some (.error e), st2, toks⟩
-            | .ok (d, dsp) =>
-              match prev1.push d dsp false with
+            | .ok v =>
+              match prev1.push v.d v.sp false v.info with
               | .error e => ⟨some (.error e), st2, toks⟩
               | .ok prev2 => pList f st2 stack' prev2 sp toks
-          | [] =>
-            let st1 := match st.ctx with
-              | .quoteTick _ :: _ | .quasiTick _ :: _ => st
-              | _ => ctxAfterTop st
-            ⟨some (cur.build sp), st1, toks⟩
+          | [] => ⟨some (cur.build sp), ctxAfterTop st, toks⟩
       | t =>
         let st1 := if t == .kw .quote then { st with quoteStackEmpty := false } else st
         let st2 := if cur.len == 0 then headAtom st1 stack.length t else st1
-        pushGo st2 (atomToDatum t) sp (tokByte t).isSome toks
+        match cur.push (atomToDatum t) sp (tokByte t).isSome with
+        | .error e => ⟨some (.error e), st2, toks⟩
+        | .ok cur' => pList f st2 stack cur' sp toks
 
 end
 
@@ -454,6 +458,19 @@ def hasBadAtoms : List Datum → Bool
   | x :: xs => x.hasBadAtom || hasBadAtoms xs
 end
 
+mutual
+/-- polar literals: their conversion (`make_polar`) is floating point and can fail; not modelled -/
+def Datum.hasPolar : Datum → Bool
+  | .other w => w == t!"polar"
+  | .list xs => hasPolars xs
+  | .vec xs => hasPolars xs
+  | .pair a d => a.hasPolar || d.hasPolar
+  | _ => false
+def hasPolars : List Datum → Bool
+  | [] => false
+  | x :: xs => x.hasPolar || hasPolars xs
+end
+
 /-- every datum of the token stream -/
 def readLoop : Nat → PSt → List Datum → List LexItem → Except ReadErr (List Datum)
   | 0, _, _, _ => .error ⟨.outOfFuel, 0, 0⟩
@@ -462,8 +479,10 @@ def readLoop : Nat → PSt → List Datum → List LexItem → Except ReadErr (L
     match r.val with
     | none => .ok acc.reverse
     | some (.error e) => .error e
-    | some (.ok (d, _)) =>
-      if d.hasBadAtom then .error ⟨.convert, 0, 0⟩ else readLoop f r.st (d :: acc) r.rest
+    | some (.ok v) =>
+      if v.d.hasBadAtom then .error ⟨.convert, 0, 0⟩
+      else if v.d.hasPolar then .error ⟨.unmodelled, v.sp.1, v.sp.2⟩
+      else readLoop f r.st (v.d :: acc) r.rest
 
 /-- `read`: all data of a text -/
 def read (src : Text) : Except ReadErr (List Datum) :=
